@@ -187,12 +187,22 @@ def spaces(tier):
         for n in sorted(FRESH):
             yield ("fresh", n)
 
+    slow = {"similarity_clustermap", "similarity_clustermap-norm", "similarity_clustermap-cbar_kws"}
+
     def gen_pairs():
-        hot = (set(STATEFUL) - {"similarity_clustermap-cbar_kws"}) | {n for n in names if n.startswith("raise-")}
+        # quick: pairs in which at least one operation is known to touch module-level state, mutable defaults, shared option
+        # dictionaries or long-lived fixtures (thorough: all pairs)
+        hot = {"kdtree", "kdtree-hamming", "kdtree-custom-ncpu2", "kdtree-maxreturns-ncpu2", "similarity_clustermap", "similarity_clustermap-norm",
+               "hierarchical_clustering-kws", "labels_to_colors_hls", "nearest_neighbor_tcrdist-kwargs", "nearest_neighbor_tcrdist", "seqlogos-styled", "seqlogos",
+               "fixture-Cdr3Levenshtein-cdist", "fixture-WeightedLevenshtein-cdist", "fixture-SymdelDB-lookup", "fixture-LookupDB-lookup-k2", "fixture-LookupDB-lookup-k1-custom",
+               "new-Cdr3Levenshtein-default-cdist", "powerlaw_mle_alpha-exact-bounds", "powerlaw_mle_alpha-exact", "load_pcDelta_background", "raise-kdtree-ncpu0",
+               "raise-TcrMetric-non-table", "symdel-k2", "nearest_neighbor", "hash_based"} & set(names)
         for a in names:
             for b in names:
                 if q and a not in hot and b not in hot:
                     continue
+                if q and ((a in slow and b not in hot) or (b in slow and a not in hot)):
+                    continue        # the 0.3 s clustermap operations are paired with the stateful operations only (quick)
                 yield ("hist", (a, b))
 
     def gen_triples():
